@@ -1,11 +1,85 @@
 (* Properties/C17.v — statements only.  "The validator set evolves only at epoch boundaries and stays well-formed".
-   Model: Staker/Model.v (transcription of builtin/staker). *)
+   Model: Staker/Model.v (transcription of builtin/staker).  WF s la lq (Staker/Inv.v): following Next from the active
+   (queued) head visits exactly the records la (lq), each once, Prev is the inverse of Next, tail and size are the stored
+   ones, membership in la / lq is exactly status Active / Queued, every other record is unlinked. *)
 From Coq Require Import List NArith Bool Lia.
-From Verif Require Import Common.Util Staker.Model Staker.Base Staker.ProofsStep.
+From Verif Require Import Common.Util Staker.Model Staker.Base Staker.Lists Staker.Inv Staker.ProofsStep Staker.ProofsUser Staker.ProofsHist.
 Import ListNotations.
 Open Scope N_scope.
 
-(* a block that is not an epoch boundary changes nothing but the block number *)
+(* ---- well-formedness ---- *)
+
+(* FULL statement (not proved in full): along every history there are lists la lq with WF *)
+Definition lists_wellformed_statement : Prop :=
+  forall c d m ops, exists la lq, WF (run c (init d m) ops) la lq.
+
+(* proved: WF holds initially, is preserved by every user operation and every non-epoch block (the active list is not even
+   touched by them); the epoch-boundary step is the explicit premise (see C16.counters_sum_partial) *)
+Theorem lists_wellformed_partial c d m ops :
+  epoch_step_preserves c -> exists la lq, WF (run c (init d m) ops) la lq.
+Proof.
+  intros H. destruct (run_InvAll c (init d m) ops H (InvAll_init d m)) as [la [lq [Hwf _]]]. exists la, lq; auto.
+Qed.
+
+(* the list operations themselves, for all lists and positions (head / middle / tail / only element):
+   removing a member of a well-formed list yields the well-formed list without it ... *)
+Theorem remove_keeps_wellformed w a e s s1 e1 l v0 :
+  ll_remove w a e s = Ok (s1, e1) -> wf_list s (get_ls w s) l -> In a l ->
+  getv s a = Some v0 -> v_prev e = v_prev v0 -> v_next e = v_next v0 ->
+  exists l1 l2, l = l1 ++ a :: l2 /\ wf_list s1 (get_ls w s1) (l1 ++ l2) /\
+    getv s1 a = Some (set_next None (set_prev None e)) /\ get_ls (negb w) s1 = get_ls (negb w) s.
+Proof.
+  intros H1 H2 H3 H4 H5 H6.
+  destruct (ll_remove_wf w a e s s1 e1 l v0 H1 H2 H3 H4 H5 H6) as [l1 [l2 [A [B [C [D [E _]]]]]]].
+  exists l1, l2. subst e1. auto.
+Qed.
+
+(* ... and appending a new member yields the well-formed list with it at the end *)
+Theorem add_keeps_wellformed w a e s s1 l :
+  ll_add w a e s = Ok s1 -> wf_list s (get_ls w s) l -> ~ In a l -> v_next e = None ->
+  wf_list s1 (get_ls w s1) (l ++ [a]) /\ get_ls (negb w) s1 = get_ls (negb w) s.
+Proof.
+  intros H1 H2 H3 H4. destruct (ll_add_wf w a e s s1 l H1 H2 H3 H4) as [A [_ [B _]]]. auto.
+Qed.
+
+(* every active validator is reachable exactly once: the leader group the staker reports is the abstract active list
+   (no duplicates), paired with the stored records *)
+Theorem leader_group_enumerates_active_once s la lq : WF s la lq ->
+  NoDup la /\ exists r, iterate true s = Ok r /\ map fst r = la /\ forall a v, In (a, v) r -> getv s a = Some v.
+Proof.
+  intros H. split; [apply (wl_nodup _ _ _ (wf_a _ _ _ H))|apply (leader_group_is_active_list s la lq H)].
+Qed.
+
+Theorem active_and_queued_disjoint s la lq a : WF s la lq -> In a la -> In a lq -> False.
+Proof.
+  intros H Ha Hq. destruct (seg_in_get _ _ _ _ _ _ (wl_seg _ _ _ (wf_a _ _ _ H)) Ha) as [v Hv].
+  destruct (wf_st _ _ _ H a v Hv) as [[S1 _] [[S2 _] _]]. rewrite (S1 Ha) in S2. specialize (S2 Hq). discriminate.
+Qed.
+
+(* ---- evolution only at epoch boundaries ---- *)
+
+(* every user operation (successful or not) and every block that is not an epoch boundary leaves the leader group
+   (members, order, weights) and the total weight unchanged *)
+Theorem set_changes_only_at_epoch c o s la lq :
+  WF s la lq -> Inv1 s -> InvA s ->
+  (is_block o = true -> (blk s + 1) mod c_epoch c <> 0) ->
+  leader_weights (step c s o) = leader_weights s /\ g_lw (step c s o) = g_lw s /\
+  exists lq', WF (step c s o) la lq'.
+Proof.
+  intros H1 H2 H3 Hb.
+  assert (U : user_ok s (step c s o) la lq).
+  { destruct (is_block o) eqn:E; [destruct o; try discriminate; apply off_epoch_block_ok; auto|apply user_step_ok; auto]. }
+  destruct U as [lq' [A [B [C D]]]].
+  destruct (leader_weights_kept s (step c s o) la lq lq' H1 A C) as [K1 K2]. split; [auto|split; [auto|exists lq'; auto]].
+Qed.
+
+Theorem set_unchanged_between_epochs c s ops la lq :
+  WF s la lq -> Inv1 s -> InvA s -> no_epoch_block c s ops ->
+  leader_weights (run c s ops) = leader_weights s /\ g_lw (run c s ops) = g_lw s.
+Proof.
+  intros H1 H2 H3 H4. destruct (run_InvAll_no_epoch c s ops la lq H1 H2 H3 H4) as [lq' [_ [_ [_ [A B]]]]]. auto.
+Qed.
+
 Theorem block_off_epoch_is_noop c s :
   (blk s + 1) mod c_epoch c <> 0 -> step c s OBlock = w_blk (blk s + 1) s.
 Proof. exact (block_off_epoch c s). Qed.
@@ -15,5 +89,48 @@ Theorem transition_needs_two_thirds c b s :
   l_size (act s) = 0 -> l_size (que s) * 3 < get_mbp s * 2 -> sync_pos c b s = Ok (s, false, false).
 Proof. exact (sync_pos_needs_two_thirds c b s). Qed.
 
+(* the number of activations of one epoch is at most the queue length, and (when positive) does not lift the group
+   above max-block-proposers *)
+Theorem activation_bounded ex s :
+  let n := compute_activation_count ex s in
+  let ls := if ex then sub64 (l_size (act s)) 1 else l_size (act s) in
+  n <= l_size (que s) /\ (n = 0 \/ ls + n <= get_mbp s).
+Proof. exact (activation_count_bounded ex s). Qed.
+
+(* offline validators are evicted only after the threshold, only at eviction-interval blocks *)
+Theorem eviction_only_after_threshold c b s t a :
+  compute_epoch_transition c b s = Ok t -> In a (tr_evictions t) ->
+  b <> 0 /\ b mod c_evict_int c = 0 /\
+  exists v off, getv s a = Some v /\ v_offline v = Some off /\ off + c_evict_thr c < b /\ v_exit v = None.
+Proof. exact (evictions_only_after_threshold c b s t a). Qed.
+
+(* at most one validator is scheduled to exit per epoch block: the exit of a block is the single entry of the exit map *)
+Theorem one_exit_candidate_per_block c b s t :
+  compute_epoch_transition c b s = Ok t -> tr_exit t = get_exit s b.
+Proof.
+  unfold compute_epoch_transition. intros H.
+  apply bind_ok in H as [ev [_ H]]. apply bind_ok in H as [ren [_ H]]. inversion H; reflexivity.
+Qed.
+(* FULL statement, not proved: the applied transition shrinks the active list by at most that one record *)
+Definition at_most_one_exit_per_epoch_statement : Prop :=
+  forall c s la lq la' lq', WF s la lq -> WF (step c s OBlock) la' lq' ->
+    forall a b, In a la -> In b la -> ~ In a la' -> ~ In b la' -> a = b.
+
+(* ---- non-vacuity: the hypotheses of set_changes_only_at_epoch hold in the initial state ---- *)
+Example ex_hyps : exists la lq, WF (init 0 5) la lq /\ Inv1 (init 0 5) /\ InvA (init 0 5).
+Proof. exact (InvAll_init 0 5). Qed.
+Example ex_two_thirds : l_size (act (init 0 5)) = 0 /\ l_size (que (init 0 5)) * 3 < get_mbp (init 0 5) * 2.
+Proof. vm_compute. split; reflexivity. Qed.
+
+Print Assumptions lists_wellformed_partial.
+Print Assumptions remove_keeps_wellformed.
+Print Assumptions add_keeps_wellformed.
+Print Assumptions leader_group_enumerates_active_once.
+Print Assumptions active_and_queued_disjoint.
+Print Assumptions set_changes_only_at_epoch.
+Print Assumptions set_unchanged_between_epochs.
 Print Assumptions block_off_epoch_is_noop.
 Print Assumptions transition_needs_two_thirds.
+Print Assumptions activation_bounded.
+Print Assumptions eviction_only_after_threshold.
+Print Assumptions one_exit_candidate_per_block.
